@@ -42,6 +42,7 @@ class Result:
         self.exhaustive = True
         self.bounded_only = False
         self.extra: dict = {}
+        self.mode = None        # "warnings-as-errors" during the second pass of sa.check
 
     # ---- bookkeeping
     def ob(self, ok: bool, sig=None, sample=None):
@@ -63,6 +64,9 @@ class Result:
 
     def violation(self, rule, construct, cls, what, detail="", replay=""):
         # one finding per key
+        if self.mode:
+            cls = f"{cls},{self.mode}"
+            what = f"[interpreter running with -W error: warnings.warn() raises] {what}"
         f = Finding(rule, construct, cls, what, detail, replay)
         for g in self.findings:
             if g.key == f.key:
